@@ -195,6 +195,18 @@ func (g *Gen) Target() *State {
 		m.Chains = append(m.Chains, c)
 		s.Tables = append(s.Tables, m)
 	}
+	if len(filter.Chains)%3 == 0 {
+		// A table beyond filter / nat / mangle (decided by generated
+		// content, no further draw).
+		raw := &Table{Name: "raw"}
+		pre := &Chain{Name: "PREROUTING", Policy: "ACCEPT"}
+		pre.Rules = append(pre.Rules, Rule{Target: "DROP", Proto: "udp", Dport: fmt.Sprintf("%d:%d", 4000+len(filter.Chains), 4000+len(filter.Chains)), Mark: -1},
+			Rule{Target: "ACCEPT", Src: "10.1.0.9", Mark: -1})
+		out := &Chain{Name: "OUTPUT", Policy: "ACCEPT"}
+		out.Rules = append(out.Rules, Rule{Target: "DROP", Proto: "tcp", Dport: "23:23", Mark: -1})
+		raw.Chains = append(raw.Chains, pre, out)
+		s.Tables = append(s.Tables, raw)
+	}
 	return s
 }
 
